@@ -60,7 +60,7 @@ def gen_script(rng, nclients=None, policy=None, track=None, auth=None, length=No
 
     def connect(c):
         ms = max_size or rng.choice([1200, 1200, 1200, 60, 30, 1])
-        lines.append("connect %d %d" % (c, ms))
+        lines.append("connect %d %d%s" % (c, ms, " slow" if rng.random() < 0.3 else ""))
         connected[c] = dict(authorized=(auth == "none"))
         if auth == "custom" and rng.random() < 0.8:
             lines.append("authorize %d" % c)
